@@ -183,7 +183,7 @@ func (nt *nodeTypes) classifyHashValue(fn *ssa.Function, rv ssa.Value, depth int
 		if sf == nil {
 			break
 		}
-		if sf == nt.pkg.Func("hash") {
+		if sf == nt.w.FuncOpt(nt.pkg, "hash") {
 			p, _ := constPrefix(v.Call.Args[0], map[ssa.Value]bool{})
 			return hashClass{kind: "digest", tag: p, input: v.Call.Args[0]}
 		}
@@ -492,4 +492,157 @@ func ruleCongruence(w *World, r *Report, nt *nodeTypes) {
 	if n == 0 {
 		r.Ok(rule, nt.tag+":no-option-reads-in-Equals", "-", "no Equals method consults an option kind directly")
 	}
+}
+
+// ruleEqSize — symmetry of container equality. An Equals that walks the
+// members of one operand only (ranges over the receiver and looks each member
+// up in the argument, or indexes the argument by the receiver's positions)
+// decides containment, not equality, unless both operands have the same
+// number of members: every result other than false must lie behind an edge on
+// which len(receiver) == len(asserted argument) is known. An Equals that
+// walks neither (compares digests) or both is left to R-HASHCOVER.
+func ruleEqSize(w *World, r *Report, nt *nodeTypes) {
+	const rule = "R-EQSIZE"
+	n := 0
+	for _, t := range nt.names {
+		fn := nt.method(t, "Equals")
+		recv := fn.Params[0]
+		switch recv.Type().Underlying().(type) {
+		case *types.Slice, *types.Map:
+		default:
+			continue
+		}
+		// the asserted argument(s): x, ok := n.(T)
+		var others []ssa.Value
+		allInstrs(fn, func(in ssa.Instruction) {
+			if ex, ok := in.(*ssa.Extract); ok && ex.Index == 0 {
+				if ta, ok := ex.Tuple.(*ssa.TypeAssert); ok && ta.CommaOk && types.Identical(ta.AssertedType, recv.Type()) {
+					others = append(others, ex)
+				}
+			}
+		})
+		if len(others) == 0 {
+			continue
+		}
+		isOther := func(v ssa.Value) bool {
+			v = strip(v)
+			for _, o := range others {
+				if v == o {
+					return true
+				}
+			}
+			return false
+		}
+		// which operands are walked: ranged over, or indexed inside a loop
+		walksRecv, walksOther := false, false
+		lps := loopsOf(fn)
+		inLoop := func(b *ssa.BasicBlock) bool {
+			for _, l := range lps {
+				if l.Blocks[b] {
+					return true
+				}
+			}
+			return false
+		}
+		allInstrs(fn, func(in ssa.Instruction) {
+			switch x := in.(type) {
+			case *ssa.Range:
+				if strip(x.X) == ssa.Value(recv) {
+					walksRecv = true
+				} else if isOther(x.X) {
+					walksOther = true
+				}
+			case *ssa.BinOp:
+				// the operand whose length bounds a range loop
+				X, Y := x.X, x.Y
+				switch x.Op {
+				case token.LSS:
+				case token.GTR:
+					X, Y = Y, X
+				default:
+					return
+				}
+				_ = X
+				if !inLoop(x.Block()) {
+					return
+				}
+				if c, ok := isBuiltinCall(Y, "len"); ok {
+					if strip(c.Call.Args[0]) == ssa.Value(recv) {
+						walksRecv = true
+					} else if isOther(c.Call.Args[0]) {
+						walksOther = true
+					}
+				}
+			}
+		})
+		if walksRecv == walksOther {
+			continue
+		}
+		n++
+		r.Fn(fnName(fn))
+		cut := EdgeSet{}
+		for _, b := range fn.Blocks {
+			cond, tE, fE, ok := branchEdges(b)
+			if !ok {
+				continue
+			}
+			bo, ok := cond.(*ssa.BinOp)
+			if !ok || (bo.Op != token.EQL && bo.Op != token.NEQ) {
+				continue
+			}
+			tx, ox, cx, okx := termOf(bo.X)
+			ty, oy, cy, oky := termOf(bo.Y)
+			if !okx || !oky || cx || cy || !tx.isLen || !ty.isLen || ox != 0 || oy != 0 {
+				continue
+			}
+			pair := (tx.v == ssa.Value(recv) && isOther(ty.v)) || (ty.v == ssa.Value(recv) && isOther(tx.v))
+			if !pair {
+				continue
+			}
+			if bo.Op == token.EQL {
+				cut[tE] = true
+			} else {
+				cut[fE] = true
+			}
+		}
+		var nonFalse []*ssa.BasicBlock
+		for _, ret := range returnsOf(fn) {
+			if b, ok := constBool(ret.Results[0]); ok && !b {
+				continue
+			}
+			nonFalse = append(nonFalse, ret.Block())
+		}
+		side := "receiver"
+		if walksOther {
+			side = "argument"
+		}
+		r.Check(len(cut) > 0 && cutsOff(fn, cut, nonFalse...), rule, fnName(fn), w.Pos(fn.Pos()),
+			"only the "+side+"'s members are walked, and every result other than false lies behind len(receiver) == len(argument)",
+			"only the "+side+"'s members are walked and the sizes of the two operands are not compared on every path to a non-false result: Equals decides containment (a value equals any value that merely includes it), it is not symmetric")
+	}
+	if n < 1 {
+		r.Bad(rule, nt.tag+":instance-floor", "-", "no one-sided container comparison found (the object and list Equals are expected to walk one operand)")
+	}
+}
+
+// isRangeIndex: v is the induction variable of a compiler-made range loop
+// (phi of -1 and itself + 1, read after the increment).
+func isRangeIndex(v ssa.Value) bool {
+	bo, ok := v.(*ssa.BinOp)
+	if !ok || bo.Op != token.ADD {
+		return false
+	}
+	if k, ok := constInt(bo.Y); !ok || k != 1 {
+		return false
+	}
+	phi, ok := bo.X.(*ssa.Phi)
+	if !ok {
+		return false
+	}
+	for _, e := range phi.Edges {
+		if k, ok := constInt(e); ok && k == -1 {
+			return true
+		}
+	}
+	return false
 }
